@@ -1112,7 +1112,8 @@ SETTING_KEYS = ["form_title", "form_id", "id_string", "version", "name", "defaul
                 "style", "namespaces", "allow_choice_duplicates", "omit_instanceID", "instance_xmlns", "clean_text_values", "add_none_option", "flat", "sms_keyword", "prefix",
                 "delimiter", "attribute::x", "attribute::x::en", "version::en", "form_title::fr", "form_id::x", "style::a", "namespaces::n", "instance_name::en", "instance_id", "client_editable", "bogus_setting", "sms_separator", "sms_allow_media", "sms_date_format", "sms_datetime_format", "sms_response",
                 # names of the form's own structural fields: text from a cell must never replace them
-                "type", "children", "bind", "control", "instance", "_translations", "attribute", "choices", "title", "label", "parameters"]
+                "type", "children", "bind", "control", "instance", "_translations", "attribute", "choices", "title", "label", "parameters",
+                "_xpath", "_created", "entity_features", "fields", "self", "setvalues_by_triggering_ref", "parent", "extra_data", "kwargs"]
 SETTING_VALS = ["yes", "no", "true", "false", "", "1", "x", "a b", "${Q}", "concat(${Q}, 'x')", "pages", "theme-grid", 'a="http://x.y"', 'a=http://x.y b="u"', "a", "=", "French (fr)", "en", "None", "  ", "1.0"]
 COLS = ["label", "hint", "guidance_hint", "relevant", "required", "read_only", "constraint", "constraint_message", "required_message", "calculation", "default", "trigger",
         "appearance", "parameters", "choice_filter", "repeat_count", "image", "audio", "video", "big-image", "media::image", "label::en", "label::fr (fr)", "hint::en",
